@@ -135,7 +135,7 @@ reg("C02",
     monitors=[link_aware(lambda rr: P.mon_streamed_readback(rr) if "sread" in rr.prog.tags else P.mon_roundtrip(rr))],
     extra=lambda seed, tier, flavours: merge(
         LG.leg_resumed_writer(flavours if tier == "thorough" else flavours[:1]),
-        LG.leg_skeleton(P.gen_roundtrip_programs(G.Rng(seed + 21), N(tier, 6, 40)), flavours[0])),
+        LG.leg_skeleton(P.gen_roundtrip_programs(G.Rng(seed + 21), N(tier, 6, 40)) + P2.skeleton_sample(), flavours[0])),
     nontrivial=lambda rr: has(rr, ("write", "write_hash", "wcommit"), ("ok",)),
     rule="(streamed in arbitrary chunk sizes: incl. a REAL short write on the open handle - a file-size limit inside the "
          "process cuts one write short, is lifted, the caller supplies the rest and commits: the commit answers the digest "
@@ -176,7 +176,7 @@ reg("C16",
 
 reg("C05",
     gen=lambda seed, tier: (P.gen_history_programs(G.Rng(seed + 5), N(tier, 60, 600), maxlen=N(tier, 14, 40)) +
-                            P.gen_bucket_programs(G.Rng(seed + 51), N(tier, 60, 600)) + P.gen_bucket_shape_programs(deep=(tier == "thorough")) +
+                            P.gen_bucket_programs(G.Rng(seed + 51), N(tier, 60, 600)) + P.gen_bucket_shape_programs(deep=True) +
                             P.gen_shared_removal_programs(G.Rng(seed + 52), N(tier, 20, 200)) +
                             P.gen_key_matrix_programs(G.Rng(seed + 53)) +
                             P.gen_attach_rewrite_programs(G.Rng(seed + 55))),
@@ -502,9 +502,9 @@ def gen_big_record_programs(seed, tier):
 
 
 REGISTRY["C15"]["extra"] = lambda seed, tier, flavours: merge(
-    LG.leg_skeleton(P.gen_confine_programs(G.Rng(seed + 151), N(tier, 6, 40)), flavours[0]),
+    LG.leg_skeleton(P.gen_confine_programs(G.Rng(seed + 151), N(tier, 6, 40)) + P2.skeleton_sample(), flavours[0]),
     LG.leg_fault_injection(LG.fault_cases_writes(G.Rng(seed + 152)), flavours[0], tier))
-REGISTRY["C15"]["rule"] += "; plus the strace leg: every mutating system call of every op (hostile keys) is compared with the model's call and any path outside the scratch cache directory is reported"
+REGISTRY["C15"]["rule"] += "; plus the strace leg: every mutating system call of every op (hostile keys) is compared with the model's call and any path outside the scratch cache directory is reported (incl. writers held across other operations, commits from another working directory, removals of dangling links, symlinked buckets)"
 
 
 def gen_c12(seed, tier):
